@@ -186,8 +186,17 @@ class Engine:
             return VEnum(T_.cls, z3.Int(base))
         if isinstance(T_, TFunc):
             return VFunc(z3.Int(base), T_)
+        if isinstance(T_, TTuple):
+            return VTuple([self.sym_value(st, t, '%s#%d' % (base, i)) for i, t in enumerate(T_.items)])
         if isinstance(T_, (TRef, TList, TTable, TQueue)):
-            r = z3.IntVal(ref) if ref is not None else z3.Int(base)
+            if ref is not None:
+                r = z3.IntVal(ref)
+            else:
+                # an object handed in from outside (call-out result): some pre-existing object
+                r = z3.Int(base)
+                st.pc.append(z3.And(r > 0, r < PARAM_REF_BASE))
+                st.pre_refs.add(r.get_id())
+                st.pre_keep.append(r)
             return mk_value(st, T_, r)
         if isinstance(T_, TOpt):
             isn = z3.Bool(base + '#none')
@@ -634,6 +643,21 @@ class Engine:
                         s_.update(c.kw)
                     return s_
                 cands = [x for x in cands if kwnames(x) == keys]
+            if len(cands) > 1:
+                # select by the declared parameter types
+                def fits(x):
+                    for pn, tstr in x.param_types.items():
+                        if pn not in env or tstr in ('kwargs', 'any'):
+                            continue
+                        T_ = parse_type(tstr)
+                        if isinstance(T_, str):
+                            continue
+                        v = env[pn]
+                        alts = [a_ for c_, a_ in flatten_union(v)] if isinstance(v, VUnion) else [v]
+                        if not all(type_accepts(T_, a_) for a_ in alts):
+                            return False
+                    return True
+                cands = [x for x in cands if fits(x)]
             if len(cands) != 1:
                 raise Unsupported('cannot select a contract variant for %s at a call site' % fi.key)
         cu = cands[0]
@@ -854,8 +878,33 @@ class Engine:
         if T_ is not None and T_.pure:
             return self.pure_app(it, f, args)
         if T_ is None or T_.ret is None:
-            return self.fresh_any(st)
-        return self.sym_value(st, T_.ret, 'cb!%d' % next(st.fresh_counter))
+            result = self.fresh_any(st)
+        else:
+            result = self.sym_value(st, T_.ret, 'cb!%d' % next(st.fresh_counter))
+        # assumed contracts of externals: callout_assume("why", expr over `ret` / `ev`, on=<callable expression>)
+        cas = u.of('callout_assume')
+        if cas:
+            env = {}
+            for fr in st.frames:
+                env.update({k_: v_ for k_, v_ in fr.locals.items() if v_ is not None})
+            env['ret'] = result
+            env['ev'] = ev
+            st.frames.append(self.spec_frame(st, env))
+            st.spec += 1
+            try:
+                for c in cas:
+                    if 'on' in c.kw:
+                        target = it.eval(c.kw['on'])
+                        tt = target.t if isinstance(target, VFunc) else (self.bound_id(st, target) if isinstance(target, VBound) else None)
+                        if tt is None or z3.simplify(tt).get_id() != z3.simplify(f.t).get_id():
+                            continue
+                    self.result.assumptions.add('assumed contract of an external callable: ' + ast.literal_eval(c.args[0]))
+                    for e in c.args[1:]:
+                        st.assume(self.assumed(it, e))
+            finally:
+                st.spec -= 1
+                st.frames.pop()
+        return result
 
     def pure_app(self, it, f, args):
         ts = []
